@@ -123,8 +123,9 @@ Section Calib.
     set_rng (set_sch c sc') (rng_pos c + n).      (* the calibrator burns one draw per sampler *)
 
   (* ---- one batch ---- *)
-  Fixpoint replace_uid (s' : sampler) (l : list sampler) : list sampler :=
-    match l with [] => [] | s :: r => if Nat.eqb (s_uid s) (s_uid s') then s' :: r else s :: replace_uid s' r end.
+  (* the sampler object is mutated in place: every position of the tuple that holds this object sees it *)
+  Definition replace_uid (s' : sampler) (l : list sampler) : list sampler :=
+    map (fun s => if Nat.eqb (s_uid s) (s_uid s') then s' else s) l.
 
   Definition min_loss (l : list LossV) : option LossV :=
     match l with [] => None | x :: r => Some (fold_left (fun m y => if loss_leb m y then m else y) r x) end.
